@@ -225,10 +225,22 @@ def check_program(ctx, prog, stats, canon=None):
         if b[2] == 2:
             nshrunk += 1
         if b[0] != lab1:
-            cross = len(prog['memories']) > 1
-            ctx.violation(dict(base, defect='wrong_target_cross_image' if cross else 'wrong_target',
-                               key='wrong_target_cross' if cross else 'wrong_target', jump=j,
-                               what='relaxed jump goes to 0x%x, label %s is at 0x%x' % (b[0], j['label'], lab1)))
+            # listed shape (code TODO in do_relaxations): a shrunk jump into ANOTHER memory image whose distance grew
+            # beyond the c.j range because only the jump's own image was compacted; bc_imm11's lax check wraps it
+            site_sym = out1.get_symbol(j['site'])
+            P1 = out1.get_section(site_sym.section).address + site_sym.value
+            mem_of = {n: i for i, (_, names) in enumerate(prog['memories']) for n in names}
+            cross = (b[2] == 2 and mem_of.get(site_sym.section) != mem_of.get(out1.get_symbol(j['label']).section)
+                     and not -2048 <= lab1 - P1 <= 2046 and b[0] == lab1 - 4096)
+            what = 'relaxed jump goes to 0x%x, label %s is at 0x%x' % (b[0], j['label'], lab1)
+            if cross and canon == 'cross':
+                ctx.violation({'fn': 'link_relax', 'defect': 'cross_image_distance_grows', 'key': 'cross_image',
+                               'witness': 'two shrunk jumps before `j t`, t in the next image 2044 bytes ahead',
+                               'what': what, 'how_to_replay': 'tools/props/c13.py: check_program(ctx, CROSS_PROG, {})'})
+            elif cross:
+                stats['cross_image_distance_grows'] = stats.get('cross_image_distance_grows', 0) + 1
+            else:
+                ctx.violation(dict(base, defect='wrong_target', key='wrong_target', jump=j, what=what))
         if b[1] != a[1]:
             rec = dict(base, defect='link_register_changed', key='link_register', jump=j, rd=a[1],
                        what='jal x%d became c.jal (links x%d)' % (a[1], b[1]))
@@ -245,7 +257,7 @@ def check_program(ctx, prog, stats, canon=None):
             if canon == 'align':
                 rec = {'fn': 'link_relax', 'defect': 'section_misaligned', 'witness': 'code: j L; code2 behind it in the same image',
                        'section': s.name, 'address': s.address, 'what': rec['what'], 'key': 'misaligned'}
-            elif not canon:
+            else:
                 # same defect as the canonical witness (code TODO): counted, reported through the witness
                 stats['misaligned_after_relaxation'] = stats.get('misaligned_after_relaxation', 0) + 1
                 continue
@@ -263,6 +275,11 @@ JAL_RD_PROG = {'sections': {'code': [('label', 'start'), ('jal', 5, 'f'), ('nop'
 ALIGN_PROG = {'sections': {'code': [('label', 'a'), ('j', 'b'), ('nop', 3), ('label', 'b'), ('nop', 1)],
                            'code2': [('label', 'c'), ('nop', 2)]},
               'memories': [(0x100, ['code', 'code2'])], 'order': ['code', 'code2']}
+# jump site at 0x1000 + 24, t at +2044 before relaxation (shrinkable); the two jumps before it shrink too, the site
+# moves down 4 bytes, the other image does not move: distance 2048 > 2046
+CROSS_PROG = {'sections': {'code': [('label', 'a'), ('j', 'a'), ('j', 'a'), ('nop', 4), ('j', 't'), ('nop', 1)],
+                           'code2': [('label', 't'), ('nop', 2)]},
+              'memories': [(0x1000, ['code']), (0x1000 + 24 + 2044, ['code2'])], 'order': ['code', 'code2']}
 
 NAME2KIND = {'cb_imm11': 'RvcCBImm11', 'cbl_imm11': 'RvcCBlImm11', 'bc_imm11': 'RvcBcImm11', 'bc_imm8': 'RvcBcImm8',
              'b_imm20': 'RvBImm20', 'b_imm12': 'RvBImm12'}
@@ -300,17 +317,18 @@ def run(ctx):
     # canonical witnesses of the two defects, re-executed on every run
     check_program(ctx, JAL_RD_PROG, stats, canon='jal_rd')
     check_program(ctx, ALIGN_PROG, stats, canon='align')
+    check_program(ctx, CROSS_PROG, stats, canon='cross')
     n = 40 if ctx.quick() and not ctx.failed_stages else 250
     cases, meta = [], []
     for i in range(n):
         prog = gen_program(ctx)
         linker = check_program(ctx, prog, stats)
-        if linker is not None and len(cases) < (24 if ctx.quick() else 250):
+        if linker is not None and len(cases) < (16 if ctx.quick() else 250):
             try:
                 term, exp, kinds = model_case(linker)
             except KeyError:
                 continue
-            if sum(len(d) for (_, _, d) in linker.pre['sections']) <= (3500 if ctx.quick() else 9000):
+            if sum(len(d) for (_, _, d) in linker.pre['sections']) <= (2500 if ctx.quick() else 9000):
                 cases.append((term, exp))
                 meta.append(i)
     ctx.cov['stages']['relax_search'] = stats
